@@ -9,6 +9,8 @@ Tie (correspondence, same inputs through gnpy and through the Gallina model `Ver
       models, shifted band edges) vs the model run on the graph extracted from networkx;
   (c') `build_oms_list` on raw graphs of stand-in elements (no design): chain-structured ones (judged) and malformed
       ones (edges back to the previous element, dead ends, shared elements, transceivers on lines, no amplifier);
+  (c'') two-step: on a share of (c) and (c') the list is built, spectrum is assigned on some OMS, and the list is built
+      again on the same network object; the second list is what is compared and judged;
   (d) frequency_to_n / nvalue_to_frequency / mvalue_to_slots / slots_to_m / find_common_range unit cases.
 Oracle: the property evaluated directly on what the implementation built (partition, ROADM-to-ROADM runs along
 graph edges, reverse pairing, one common contiguous extent, FREE exactly inside the OMS's common band(s),
@@ -570,6 +572,14 @@ def amp_el(rng, uid, mode, pal=None):
             'operational': {'gain_target': None, 'delta_p': None, 'tilt_target': 0, 'out_voa': None}}
 
 
+def gen_rebuild(rng):
+    """two-step cases: spectrum assigned on some OMS of the first list ([k, offset, m]), then the list is built again on
+    the same network object"""
+    if rng.random() < 0.55:
+        return None
+    return [[rng.randint(0, 40), rng.randint(0, 200), rng.choice([1, 2, 4, 4, 8])] for _ in range(rng.randint(1, 5))]
+
+
 def gen_net(rng, tricky=False):
     """random ROADM mesh; every directed line is C-only, L-only, C+L (explicit amplifiers, fully or partly
     given) or left to auto-design; ROADM design bands single or multi band"""
@@ -673,7 +683,7 @@ def gen_net(rng, tricky=False):
         rng.shuffle(els)
     if rng.random() < 0.5:
         rng.shuffle(cx)
-    return {'kind': 'net', 'eq': rng.choice([0, 0, 1, 2, 4, 4]), 'tricky': tricky, 'modes': modes,
+    return {'kind': 'net', 'eq': rng.choice([0, 0, 1, 2, 4, 4]), 'tricky': tricky, 'modes': modes, 'rebuild': gen_rebuild(rng),
             'topo': {'elements': els, 'connections': [{'from_node': a, 'to_node': b} for a, b in cx]}}
 
 
@@ -713,15 +723,17 @@ def drive_net(case):
     except Exception as e:
         return {'design_exc': f'{type(e).__name__}: {str(e)[:200]}'}
     si = eq['SI']['default']
-    return observe(net, eq, [Fraction(si.f_min), Fraction(si.f_max)])
+    return observe(net, eq, [Fraction(si.f_min), Fraction(si.f_max)], rebuild=case.get('rebuild'))
 
 
 class Diverges(Exception):
     pass
 
 
-def observe(net, eq, si, step_limit=None):
-    """extract the graph from networkx, run the real build_oms_list on it, record what it built"""
+def observe(net, eq, si, step_limit=None, rebuild=None):
+    """extract the graph from networkx, run the real build_oms_list on it, record what it built.
+    rebuild = [[k, offset, m], ...]: after the first build, assign spectrum (OMS.assign_spectrum) on the OMS k mod len,
+    then build the OMS list AGAIN on the same network object; what is recorded and judged is the second list"""
     import gnpy.topology.spectrum_assignment as sa
     from gnpy.core.elements import Roadm, Transceiver, Edfa, Multiband_amplifier
     obs = {}
@@ -769,6 +781,20 @@ def observe(net, eq, si, step_limit=None):
         sa.OMS.add_element = guarded
     try:
         oms_list = sa.build_oms_list(net, eq)
+        if rebuild and oms_list:
+            done = 0
+            for k, off, m in rebuild:
+                o = oms_list[k % len(oms_list)]
+                bm = o.spectrum_bitmap
+                try:
+                    o.assign_spectrum(bm.freq_index_min + m + off, m)
+                    done += 1
+                except (sa.SpectrumError, ValueError):
+                    pass
+            obs['rebuilt'], obs['assigned'] = True, done
+            first = oms_list
+            oms_list = sa.build_oms_list(net, eq)
+            obs['same_objects_as_first'] = sum(1 for o in oms_list if any(o is x for x in first))
     except Exception as e:
         obs['exc'] = f'{type(e).__name__}: {e}'
         obs['line'] = 'E:diverges' if isinstance(e, Diverges) else exc_s(e)
@@ -790,6 +816,9 @@ def observe(net, eq, si, step_limit=None):
         owners.append(None if o is None else next((k for k, x in enumerate(oms_list) if x is o), -1))
     obs['owners'] = owners
     obs['owner_ids'] = [getattr(n, 'oms_id', None) for n in nodes]
+    # the map an element reaches through its .oms must be the (fresh) map of the list just built
+    obs['owner_occupied'] = [n.uid for n in nodes if getattr(n, 'oms', None) is not None
+                             and any(v.name == 'OCCUPIED' for v in n.oms.spectrum_bitmap.bitmap)]
     obs['edges'] = {(ids[a], ids[b]) for a, b in net.edges()}
     body = '/'.join(';'.join(['[' + ','.join(map(str, o['els'])) + ']',
                               ','.join([str(o['n_min']), str(o['n_max']), str(o['fi_min']), str(o['fi_max']),
@@ -895,7 +924,7 @@ def gen_raw(rng, malformed=False):
             edges.append((a, a))
     if rng.random() < 0.7:
         rng.shuffle(nodes)                           # the order in which elements are listed is free
-    return {'kind': 'raw', 'malformed': malformed, 'nodes': nodes, 'edges': [list(e) for e in edges],
+    return {'kind': 'raw', 'malformed': malformed, 'rebuild': gen_rebuild(rng), 'nodes': nodes, 'edges': [list(e) for e in edges],
             'bands': bands, 'si': si}
 
 
@@ -917,7 +946,8 @@ def drive_raw(case):
         g.add_edge(objs[a], objs[b])
     eq = {'SI': {'default': NS(f_min=float(case['si'][0]), f_max=float(case['si'][1]), spacing=50e9)}}
     n = len(case['nodes'])
-    return observe(g, eq, [Fraction(case['si'][0]), Fraction(case['si'][1])], step_limit=(n * n + n + 2) * (len(case['edges']) + 1))
+    return observe(g, eq, [Fraction(case['si'][0]), Fraction(case['si'][1])], step_limit=2 * (n * n + n + 2) * (len(case['edges']) + 1),
+                   rebuild=case.get('rebuild'))
 
 
 def oms_common_empty(obs):
@@ -978,6 +1008,11 @@ def oracle_net(case, obs, ctx):
                 fails.append(('partition', f"line element '{obs['uids'][n[0]]}' belongs to {len(c)} OMS"))
             elif obs['owners'][n[0]] != c[0] or obs['owner_ids'][n[0]] != c[0]:
                 fails.append(('element_oms_ref', f"line element '{obs['uids'][n[0]]}': .oms/.oms_id do not name its OMS"))
+    if obs.get('owner_occupied'):
+        fails.append(('element_oms_stale', f"line element '{obs['owner_occupied'][0]}': the map reached through .oms shows "
+                      'occupied slots right after build_oms_list' + (' (second build on the same network)' if obs.get('rebuilt') else '')))
+    if obs.get('same_objects_as_first'):
+        fails.append(('oms_objects_reused', 'the second build_oms_list returned OMS objects of the first list'))
     # a transceiver sitting directly on a line (external transponder): build_oms_list starts an OMS at it AND walks
     # through it from the ROADM behind; everything such a network breaks in the partition is one finding
     succ0 = {n[0]: (n[2][0] if n[2] else None) for n in g}
@@ -1140,6 +1175,8 @@ def run(ctx):
         elif kind == 'raw':
             obs = drive_raw(c)
             ctx.count('raw_malformed' if c['malformed'] else 'raw_wellformed')
+            if obs.get('rebuilt'):
+                ctx.count('raw_rebuilt_after_assignment')
             if 'exc' in obs:
                 ctx.count('raw_exception_' + obs['exc'].split(':')[0])
             ctx.case(pc, len({o['cells'] for o in obs.get('oms', [])}) >= 2)
@@ -1156,6 +1193,9 @@ def run(ctx):
                 ctx.count('net_design_rejected_' + obs['design_exc'].split(':')[0])
                 continue
             ctx.count('net_designed')
+            if obs.get('rebuilt'):
+                ctx.count('net_rebuilt_after_assignment')
+                ctx.count('net_rebuilt_assignments_done', obs.get('assigned', 0))
             ctx.count('net_eq_variant_%d' % c['eq'])
             for mk, m in c.get('modes', {}).items():
                 ctx.count('net_trx_on_line' if mk == 'trx-on-line' else 'net_line_mode_' + m)
